@@ -271,6 +271,7 @@ inductive Status
   | running    -- its `_download_file` task is between "path claimed" and its end
   | complete   -- all bytes received (COMPLETE); queueing it again forgets the path (state.py:305-310)
   | broken     -- ended early (INCOMPLETE / FAILED after the claim): the path is kept and resumed
+  | gone       -- COMPLETE, and the user has since moved the file away: the path is still stored, nothing is there
 deriving DecidableEq, Repr
 
 /-- a download that holds a `local_path` -/
@@ -292,6 +293,13 @@ inductive Op
   | start (id : Nat) (remote : List Char) (fault : Fault)
   | finish (id : Nat)                       -- the task ends, all bytes received (the file stays)
   | cut (id : Nat)                          -- the task ends early: connection lost (the file stays)
+  /-- the user moves the file of a COMPLETED download out of the download directory (what users do with completed
+  files); the transfer object still stores the path -/
+  | remove (id : Nat)
+  /-- `TransferManager.queue(transfer)` on a download whose task has ended, WITHOUT starting it yet (the peer is busy
+  or offline): `CompleteState.queue` forgets the local path (`reset_local_vars`, state.py:305-310) whether or not the
+  file is still there; every other state keeps it -/
+  | requeue (id : Nat)
 deriving Repr
 
 inductive Outcome
@@ -301,6 +309,8 @@ inductive Outcome
   | oserror (d : Path) (n : Name)
   | busy
   | done
+  | removed
+  | noop
 deriving Repr
 
 def Sys.find (s : Sys) (id : Nat) : Option Dl := s.dls.find? (·.id == id)
@@ -332,9 +342,26 @@ def step (strategies : List Strategy) (s : Sys) : Op → Sys × Outcome
         ({ s with dls := setStatus id .broken .running s.dls }, .resumed a.dir a.name)
       | .complete =>     -- CompleteState.queue(): reset_local_vars(), then as a new download
         chooseAndClaim strategies s.fs (s.drop id) id remote fault
+      | .gone => chooseAndClaim strategies s.fs (s.drop id) id remote fault
     | none => chooseAndClaim strategies s.fs s.dls id remote fault
   | .finish id => ({ s with dls := setStatus id .running .complete s.dls }, .done)
   | .cut id => ({ s with dls := setStatus id .running .broken s.dls }, .done)
+  | .remove id =>
+    match s.find id with
+    | some a =>
+      if a.status = .complete then
+        -- the file is there to be moved (with a chain that does not end in the number-duplicate strategy two downloads
+        -- may hold the same path, and the file may have gone with the other one)
+        if s.fs.any (fun e => e.dir == a.dir && e.name == a.name && !e.isDir) then
+          ({ fs := s.fs.filter (fun e => !(e.dir == a.dir && e.name == a.name)),
+             dls := setStatus id .complete .gone s.dls }, .removed)
+        else (s, .noop)
+      else (s, .noop)
+    | none => (s, .noop)
+  | .requeue id =>
+    match s.find id with
+    | some a => if a.status = .complete ∨ a.status = .gone then ({ s with dls := s.drop id }, .done) else (s, .done)
+    | none => (s, .done)
 
 def run (strategies : List Strategy) (s : Sys) (ops : List Op) : Sys :=
   ops.foldl (fun s op => (step strategies s op).1) s
